@@ -478,6 +478,9 @@ inductive Op
   | del (n : Name)
   | flush
   | has (n : Name)
+  /-- `VPK.__exit__(exc_type, …)` at the end of a `with VPK(...) as v:` block; `exc` = an exception was
+  raised inside the block -/
+  | exit (exc : Bool)
 deriving Repr, Inhabited
 
 inductive Res
@@ -509,6 +512,12 @@ def newFileTree (crc : Bytes → Nat) (t : Tree) (k : Key) : Except Err Tree :=
   match t.lookup k with
   | some _ => .error .exists
   | none => .ok (t.put k (emptyInfo crc))
+
+/-- `VPK.write_dirfile` after the mode check -/
+def flushStep (w : World) (v : Vpk) : World × Res :=
+  if v.version > 1 then (w, .err .v2) else
+  if ¬ v.tree.fits then (w, .err .struct) else   -- state of the file after struct.error: not modelled
+  ({ w with dirFile := some (encodeDir v.version v.tree v.footer) }, .ok)
 
 def step (crc : Bytes → Nat) (w : World) (op : Op) : World × Res :=
   match op with
@@ -550,14 +559,16 @@ def step (crc : Bytes → Nat) (w : World) (op : Op) : World × Res :=
       | none => (w, .err .missing)
       | some _ => ({ w with vpk := some { v with tree := v.tree.del k } }, .ok)
     | .flush =>
-      if ¬ v.mode.writable then (w, .err .readonly) else
-      if v.version > 1 then (w, .err .v2) else
-      if ¬ v.tree.fits then (w, .err .struct) else   -- state of the file after struct.error: not modelled
-      ({ w with dirFile := some (encodeDir v.version v.tree v.footer) }, .ok)
+      if ¬ v.mode.writable then (w, .err .readonly) else flushStep w v
     | .has n =>
       match v.tree.lookup (getFileParts n) with
       | none => (w, .no)
       | some _ => (w, .yes)
+    | .exit exc =>
+      -- `if exc_type is None and self.mode.writable: self.write_dirfile()`; returns None (the
+      -- exception, if any, propagates; the object stays usable)
+      if exc then (w, .ok) else
+      if ¬ v.mode.writable then (w, .ok) else flushStep w v
 
 def run (crc : Bytes → Nat) : World → List Op → World × List Res
   | w, [] => (w, [])
